@@ -14,7 +14,8 @@
    the serialized config incl. applied_filters) and user files keyed by a user path.
    KeyIncludesFilters = FALSE is the deliberately broken design (cache name ignores the filter list). *)
 EXTENDS Naturals, Sequences, FiniteSets, TLC
-CONSTANTS Bases, Filters, Paths, MaxFl, MaxHandles, MaxColls, MaxOps, KeyIncludesFilters
+CONSTANTS Bases, Filters, Paths, MaxFl, MaxHandles, MaxColls, MaxOps, KeyIncludesFilters,
+          Views      \* derived views a user takes of a dataset: "tok" (as_tokens with a deterministic tokenizer), "pix" (as_pixels), "asc" (as_ascii)
 VARIABLES hs,        \* sequence of handles [cfg, data]
           colls,     \* sequence of collections: each a sequence of member handles [cfg, data]
           cache,     \* cache key -> Absent | [cfg, data]
@@ -66,7 +67,13 @@ CollRoundTrip(k) ==
   /\ Tick /\ k \in 1..Len(colls) /\ Len(colls) < MaxColls
   /\ colls' = Append(colls, colls[k])
   /\ UNCHANGED <<hs, cache, files>> /\ H([op |-> "collrt", k |-> k])
-Next == \/ \E i, j \in 1..MaxHandles : Collect(i, j)
+\* a derived view (tokens / pixels / ascii of every maze) reads the DATA of the handle and nothing else: not how the handle was
+\* obtained (cold, warm cache, filter, file), not its position in the history; it changes nothing
+View(i, v) ==
+  /\ Tick /\ i \in 1..Len(hs) /\ v \in Views
+  /\ UNCHANGED <<hs, colls, cache, files>> /\ H([op |-> "view", i |-> i, v |-> v, of |-> hs[i].data])
+Next == \/ \E i \in 1..MaxHandles, v \in Views : View(i, v)
+        \/ \E i, j \in 1..MaxHandles : Collect(i, j)
         \/ \E c, d \in Bases : CollGenerate(c, d)
         \/ \E k \in 1..MaxColls : CollRoundTrip(k)
         \/ \E c \in Bases, fl \in FlSeqs : Request(c, fl)
@@ -86,7 +93,12 @@ RequestGetsWhatItAskedFor ==
      \E i \in 1..Len(hs) : hs[i].cfg = <<hist[j].c, hist[j].fl>>
 \* with a truthful cache name a mismatch can never occur
 NoMismatch == \A j \in 1..Len(hist) : hist[j].op = "request" => hist[j].how # "mismatch"
+\* every view ever taken was a view of exactly what the handle's own configuration denotes: tokenize . load = tokenize,
+\* pixels of a cached / filtered / re-read dataset = pixels of the freshly generated and filtered one
+ViewsShowWhatTheConfigSays == \A j \in 1..Len(hist) : hist[j].op = "view" => hist[j].of = hs[hist[j].i].cfg
 NoHist == <<hs, colls, cache, files, ops>>
+NoViews == {}
+ViewsTP == {"tok", "pix", "asc"}
 BasesAB == {"a", "b"}
 FiltersPT == {"p", "t"}
 PathsXY == {"x"}
